@@ -5,11 +5,15 @@
 EXTENDS Options, Json, IOUtils
 Full == IOEnv.VF_FULL = "1"
 Strs(A, n) == UNION {[1..k -> A] : k \in 0..n}
+BigNums == { <<"1">>, <<"4", "4", "3">>, <<"6", "5", "5", "3", "5">>, <<"6", "5", "5", "3", "6">>, <<"6", "5", "5", "3", "7">>, <<"6", "5", "6", "1", "6">>, <<"7", "0", "0", "0", "0">>,
+             <<"1", "3", "1", "0", "7", "2">>, <<"9", "9", "9", "9", "9">>, <<"4", "2", "9", "4", "9", "6", "7", "2", "9", "6">>, <<"4", "2", "9", "4", "9", "6", "7", "3", "7", "6">> }
 PortAlpha == {"0", "1", "5", "6", "9", "-", ",", " ", "x"}
 PortStrs == Strs(PortAlpha, IF Full THEN 5 ELSE 4)
    \cup { <<"6", "5", "5", "3", "5">>, <<"6", "5", "5", "3", "6">>, <<"0", "-", "6", "5", "5", "3", "5">>, <<"1", "-", "2", "-", "3">>, <<"8", "0", ",", "4", "4", "3">>,
           <<"0", "8", "0">>, <<"+", "8", "0">>, <<"4", "2", "9", "4", "9", "6", "7", "2", "9", "6">>, <<"8", "0", "-">>, <<"-", "8", "0">>, <<"8", "0", ",">>,
           <<"1", "8", "4", "4", "6", "7", "4", "4", "0", "7", "3", "7", "0", "9", "5", "5", "1", "6", "1", "6">>, <<"2", "2", "-", "2", "5", ",", "8", "0", "-", "8", "0">> }
+   \* boundary numerals in either position of a range
+   \cup {a \o <<"-">> \o b : a \in BigNums, b \in BigNums} \cup {a \o <<",">> \o b : a \in BigNums, b \in BigNums}
 Names == {<<"f", "i", "n">>, <<"s", "y", "n">>, <<"r", "s", "t">>, <<"p", "s", "h">>, <<"a", "c", "k">>, <<"u", "r", "g">>, <<"e", "c", "e">>, <<"c", "w", "r">>, <<"n", "s">>}
 Upper(c) == CASE c = "a" -> "A" [] c = "c" -> "C" [] c = "d" -> "D" [] c = "e" -> "E" [] c = "f" -> "F" [] c = "g" -> "G" [] c = "h" -> "H" [] c = "i" -> "I"
               [] c = "k" -> "K" [] c = "l" -> "L" [] c = "m" -> "M" [] c = "n" -> "N" [] c = "p" -> "P" [] c = "r" -> "R" [] c = "s" -> "S" [] c = "t" -> "T"
